@@ -740,6 +740,44 @@ fn main() {
           Err(e) => format!("panic {}", hex(panic_msg(&e).as_bytes())),
         }
       }
+      // `proj <module> <hex> ...`: what the LIBRARY reports for a whole project (exactly these modules, like
+      // `samlang-cli lsp` with libdef shadowing): every error's module, range and reference locations
+      // (`to_ide_format`), as JSON - the expectation for the diagnostics published over LSP.
+      "proj" if t.len() >= 3 && t.len() % 2 == 1 => {
+        let r = catch_unwind(AssertUnwindSafe(|| {
+          let mut heap = Heap::new();
+          let mut sources: HashMap<ModuleReference, String> = HashMap::new();
+          for pair in t[1..].chunks(2) {
+            let m = mod_ref(&mut heap, pair[0]);
+            sources.insert(m, unhex_str(pair[1]));
+          }
+          let state = ServerState::new(heap, false, sources.clone());
+          let mut out = Vec::new();
+          let mut mods: Vec<ModuleReference> = sources.keys().copied().collect();
+          mods.sort_by_key(|m| m.pretty_print(&state.heap));
+          for m in mods {
+            for e in state.get_errors(&m) {
+              let ide = e.to_ide_format(&state.heap, &sources);
+              let l = ide.location;
+              let refs: Vec<serde_json::Value> = ide
+                .reference_locs
+                .iter()
+                .map(|r| {
+                  serde_json::json!({"module": r.module_reference.pretty_print(&state.heap),
+                    "range": [r.start.0, r.start.1, r.end.0, r.end.1]})
+                })
+                .collect();
+              out.push(serde_json::json!({"module": l.module_reference.pretty_print(&state.heap),
+                "range": [l.start.0, l.start.1, l.end.0, l.end.1], "refs": refs, "message": ide.ide_error}));
+            }
+          }
+          serde_json::Value::Array(out).to_string()
+        }));
+        match r {
+          Ok(s) => s,
+          Err(e) => format!("panic {}", hex(panic_msg(&e).as_bytes())),
+        }
+      }
       "svc" if t.len() == 3 => {
         let text = unhex_str(t[2]);
         if svc.is_none() {
